@@ -737,7 +737,6 @@ func storeExact(in ssa.Instruction, typeName, field string) (ssa.Value, bool) {
 	return st.Val, true
 }
 
-
 // c09RawBody decides O9.7.
 func c09RawBody(c *Ctx) {
 	P := c.P
@@ -770,7 +769,6 @@ func c09RawBody(c *Ctx) {
 	c.Floor("O9.7", "http.ReadRequest call sites", n, 1)
 	freshRequestRule(c, "O9.7", "RawAmmo")
 }
-
 
 // freshRequestRule: BuildRequest of the decoded-ammo type builds its request in the call (http.NewRequest / http.ReadRequest,
 // directly or in a helper), it does not hand out a request kept in the entry (nor a Clone of one: Clone shares the Body).
